@@ -140,13 +140,15 @@ type recorder struct {
 	trace      []map[string]any
 	expect     []map[string]any
 	hook       func(ev sysEvent)
+	removing   map[string]bool
+	mismatch   string
 	mu         sync.Mutex
 	nextIno    int
 	acked      int
 }
 
 func newRecorder(root string) *recorder {
-	return &recorder{root: root, vol: nsmap{}, dur: nsmap{}, partBatch: map[uint64][]int{}, flushed: map[uint64]bool{}, cover: map[int]bool{}}
+	return &recorder{root: root, removing: map[string]bool{}, vol: nsmap{}, dur: nsmap{}, partBatch: map[uint64][]int{}, flushed: map[uint64]bool{}, cover: map[int]bool{}}
 }
 
 func (r *recorder) rel(p string) string {
@@ -204,6 +206,7 @@ func (r *recorder) onSys(fe fs.VerifSysEvent) {
 		ev.Path = r.rel(fe.Path)
 	}
 	r.refresh()
+	r.compareTree()
 	r.points = append(r.points, r.snapshot())
 	r.log = append(r.log, ev)
 	r.apply(ev)
@@ -212,6 +215,39 @@ func (r *recorder) onSys(fe fs.VerifSysEvent) {
 		r.mu.Unlock()
 		h(ev)
 		r.mu.Lock()
+	}
+}
+
+// compareTree checks that the mirror's volatile name space IS the directory tree on disk at this instant
+// (so that the kill -9 images are real); directories whose RemoveAll has been issued may still be vanishing.
+func (r *recorder) compareTree() {
+	if r.mismatch != "" {
+		return
+	}
+	disk := map[string]bool{}
+	for _, p := range measure.VerifListTree(r.root) {
+		p = strings.TrimSuffix(p, "/")
+		gone := false
+		for d := range r.removing {
+			if p == d || strings.HasPrefix(p, d+"/") {
+				gone = true
+			}
+		}
+		if !gone {
+			disk[p] = true
+		}
+	}
+	for p := range r.vol {
+		if !disk[p] {
+			r.mismatch = fmt.Sprintf("before syscall %d: %s is in the mirror but not on disk", len(r.log), p)
+			return
+		}
+	}
+	for p := range disk {
+		if _, ok := r.vol[p]; !ok {
+			r.mismatch = fmt.Sprintf("before syscall %d: %s is on disk but not in the mirror", len(r.log), p)
+			return
+		}
 	}
 }
 
@@ -305,6 +341,7 @@ func (r *recorder) applyOp(ev sysEvent) {
 		if !ok {
 			return
 		}
+		r.removing[p] = true
 		e := effect{op: "rmall", dir: parentOf(p), path: p, to: p, ino: i}
 		applyEff(r.vol, e)
 		r.pend = append(r.pend, e)
@@ -557,6 +594,10 @@ func execute(root string, hist []string, sh shape) (*run, error) {
 	rec.mu.Lock()
 	rec.macro = "end"
 	rec.refresh()
+	rec.compareTree()
+	if rec.mismatch != "" {
+		rn.problems = append(rn.problems, "mirror of the file system diverged from the disk: "+rec.mismatch)
+	}
 	rec.points = append(rec.points, rec.snapshot()) // the final, quiescent point
 	rec.mu.Unlock()
 	fs.VerifInstallTracer(nil)
